@@ -44,6 +44,7 @@ def strategy(ctx):
             gen_ir.interface("docstring", suffix=False),
             gen_ir.interface("docstring", suffix=True, doc=gen_ir.long_descr, max_params=4),
             gen_ir.interface("docstring", suffix=True, doc=gen_ir.mixed_descr, name_strategy=gen_ir.rich_names),
+            gen_ir.wrap_boundary_interface(),
         ),
         st.just(0),
     )
@@ -98,6 +99,11 @@ def check_cell(r, case, ir, cell):
         if is_open("P24") and style == "rest" and not et and eedd and pedd and has_code_default:
             r.covered("P24")
             return
+        if is_open("P40") and style == "numpydoc" and ww and eedd and any(
+            "default" in p and len(p.get("doc", "")) + len(". Defaults to ") + len(repr(p["default"])) > 90 for _n, p in params
+        ):
+            r.covered("P40")  # the wrapped 'Defaults to "two\n    words"' is not even parseable
+            return
         r.fail("parse-raises", "%s %s on %r" % (tag, core.exc_bucket(e), ds[:300]))
         return
     if params or has_ret:
@@ -119,6 +125,12 @@ def check_cell(r, case, ir, cell):
             style == "numpydoc" and ww and eedd and "default" in p and is_open("P40")
             and len(p.get("doc", "")) + len(". Defaults to ") + len(repr(p["default"])) > 90
         )
+        # P63: ReST + word_wrap: a string default with inner blanks that is wrapped INSIDE its quotes keeps the line
+        # break / indent in the value when the parser is asked to strip the prose (parse-side flag F)
+        p63 = (
+            style == "rest" and ww and eedd and not pedd and isinstance(p.get("default"), str) and " " in p["default"] and is_open("P63")
+            and len(p.get("doc", "")) + len(". Defaults to ") + len(repr(p["default"])) > 80
+        )
         if et:
             if b.get("typ") != p["typ"] and p40 and b.get("typ") == "Optional[%s]" % p["typ"]:
                 r.covered("P40")
@@ -134,6 +146,8 @@ def check_cell(r, case, ir, cell):
             gd = default_view(b, typ=p["typ"])
             if wd != gd and p40:
                 r.covered("P40")
+            elif wd != gd and p63:
+                r.covered("P63")
             elif wd != gd:
                 r.fail("default", "%s %s (%s): %r -> %r text=%r" % (tag, n, p["typ"], wd, gd, ds[:300]))
         else:
